@@ -65,13 +65,16 @@ def run(ctx, out):
         kinds.append("canonical")
         # malformed: truncations and a few substitutions (implementation = model only)
         if len(ops) % 5 == 0 and len(b) > 0:
-            for k in range(len(b)):
+            for k in (range(len(b)) if len(b) <= 300 else range(0, len(b), len(b) // 100)):
                 ops.append(f"dec {s['name']} {C.hexs(b[:k])}"); want.append(None); kinds.append("truncation")
             for _ in range(6):
                 m = bytearray(b); m[vr.randrange(len(m))] = vr.choice([0, 0x1f, 0x81, 0x82, 0xff, 0x99, vr.randrange(256)])
                 ops.append(f"dec {s['name']} {bytes(m).hex()}"); want.append(None); kinds.append("substitution")
+    t1 = time.time()
     impl = C.run_lines(os.path.join(LAB, "target/debug/derive_lab"), ops, shards=C.NCPU)
+    t2 = time.time()
     model = C.run_lines(os.path.join(C.LEAN, ".lake/build/bin/labdriver"), ops, shards=C.NCPU)
+    out.notes.append(f"generated decoders: {t2 - t1:.0f} s, schema interpreter: {time.time() - t2:.0f} s for {len(ops)} inputs")
     out.compare("dec(lab)", ops, impl, model)
     out.evaluations = len(ops)
     for o, r, w, kd in zip(ops, impl, want, kinds):
